@@ -19,6 +19,54 @@
 #include <cappuccino/peek.hpp>
 #include "vf.hpp"
 #include "abs.hpp"
+// ---- value type of the instantiation under check: uint64_t, or (C08, -DVAL_COUNTED) an instance-counting type with a
+// user-written constructor / copy / move / assignment / destructor and a magic word against use-after-destroy
+#ifdef VAL_COUNTED
+extern "C" {
+extern int64_t g_live; // instances alive
+extern int64_t g_bad;  // operations on an instance that is not alive (double destroy, use after destroy, use of raw storage)
+}
+struct Counted
+{
+    uint64_t x;
+    uint32_t magic;
+    Counted() : x(0), magic(0xC0FFEEu) { ++g_live; }
+    explicit Counted(uint64_t v) : x(v), magic(0xC0FFEEu) { ++g_live; }
+    Counted(const Counted& o) : x(o.x), magic(0xC0FFEEu)
+    {
+        if (o.magic != 0xC0FFEEu) ++g_bad;
+        ++g_live;
+    }
+    Counted(Counted&& o) : x(o.x), magic(0xC0FFEEu)
+    {
+        if (o.magic != 0xC0FFEEu) ++g_bad;
+        ++g_live;
+    }
+    Counted& operator=(const Counted& o)
+    {
+        if (magic != 0xC0FFEEu || o.magic != 0xC0FFEEu) ++g_bad;
+        x = o.x;
+        return *this;
+    }
+    Counted& operator=(Counted&& o)
+    {
+        if (magic != 0xC0FFEEu || o.magic != 0xC0FFEEu) ++g_bad;
+        x = o.x;
+        return *this;
+    }
+    ~Counted()
+    {
+        if (magic != 0xC0FFEEu) ++g_bad;
+        magic = 0xDEADu;
+        --g_live;
+    }
+};
+#define VAL_T Counted
+static inline uint64_t val_u(const Counted& c) { return c.x; }
+#else
+#define VAL_T uint64_t
+static inline uint64_t val_u(uint64_t v) { return v; }
+#endif
 using TP = std::chrono::steady_clock::time_point;
 #ifdef VF_REAL
 // real build: steady_clock counts nanoseconds; the virtual clock of a replay advances in whole ticks of 1 ms
